@@ -1,5 +1,7 @@
 import Otel.C16.Model
 import Otel.C16.Script
+import Otel.C16.Spec
+import Otel.C16.Propagator
 /-
 C16 — deterministic replay of a *forced* scenario script on the LTS (driver glue; core Lean only).
 
@@ -17,7 +19,7 @@ inductive CH where | ph (r : Nat) | direct deriving Repr, DecidableEq
 
 /-- pending stages -/
 inductive POp where
-  | M (k : Nat) | K (i k kind : Nat) | R (c k : Nat) (is : List Nat)
+  | M (k : Nat) | K (i k kind : Nat) | R (c k : Nat) (is : List Nat) | RB (c k : Nat) (is : List Nat)
   | U1 (c : Nat) | U2 (c : Nat)
   | T (t : Nat)
   | IM | IT
@@ -28,7 +30,7 @@ inductive GateAt where | meter | inst (i : Nat) | reg deriving Repr
 structure Sim where
   ms : St := {}
   ts : St := { nM := 1 }
-  prop : Bool := false
+  tmp : TMP.PSt := {}                          -- the global TextMapPropagator's LTS
   meters : List (Nat × MH) := []
   insts : List (Nat × IH × Nat) := []          -- script id, handle, kind
   cbs : List (Nat × CH × List Nat) := []       -- script id, handle, observed script instruments
@@ -44,11 +46,16 @@ structure Sim where
   gr : Bool := false
   gateAt : Option GateAt := none
   obsGates : List String := []
+  obsOc : List String := []                    -- observed results of the OC / CC operations still to come (only `skip` is read)
   gates : List String := []                    -- model's gate sequence, newest first
   pend : List (Nat × POp) := []
   nextTid : Nat := 1
   tags : List String := []
   bad : Bool := false
+  ocs : List String := []                      -- results of the OC / CC operations, newest first
+  extraInv : List (Nat × Nat) := []            -- callback invocations caused by OC / CC: (script callback, count)
+  dObs : List (Nat × Nat × Nat × Nat) := []    -- observations of SDK-direct callbacks (no global wrapper in between):
+                                               -- (reader, script instrument, script callback, value)
 
 def lookup {α : Type} (l : List (Nat × α)) (k : Nat) : Option α := (l.find? (·.1 == k)).map (·.2)
 
@@ -155,6 +162,13 @@ def tryOp (x : Sim) (tid : Nat) (p : POp) : Sim × Option POp :=
       match step false x.ms tid (.reg m) with
       | some s' => ({ x with ms := s', cbs := (c, .ph x.ms.nR, is) :: x.cbs }.tag (if x.ms.mDel m then "regDelegated" else "regPlaceholder"), none)
       | none => (x.tag "blocked:R", some p)
+  | .RB c k is =>
+    match lookup x.meters k with
+    | some (.ph m) =>
+      match step false x.ms tid (.regBad m) with
+      | some s' => ({ x with ms := s', cbs := (c, .ph x.ms.nR, is) :: x.cbs }.tag "regRejectedLater", none)
+      | none => if x.ms.mDel m then ({ x with bad := true }, none) else (x.tag "blocked:R", some p)
+    | _ => ({ x with bad := true }, none)     -- on an SDK meter the error goes to the caller: not generated
   | .U1 c =>
     match lookup x.cbs c with
     | none => ({ x with bad := true }, none)
@@ -239,10 +253,99 @@ def releaseAll : Nat → Sim → Sim
   | 0, x => x
   | f + 1, x => if x.active ∧ x.gateAt.isSome then releaseAll f (release x) else x
 
+/-- SetTextMapPropagator(d) as one uninterrupted call (it shares no lock with anything the gated installer holds) -/
+def setProp (x : Sim) (d : Nat) : Sim :=
+  let ls := if x.tmp.onceDone then TMP.setLabelsFast x.nextTid d else TMP.setLabels x.nextTid d
+  match TMP.prun x.tmp ls with
+  | some s' => { x with tmp := s', nextTid := x.nextTid + 1 }.tag (if x.tmp.onceDone then "setPropAgain" else "setPropFirst")
+  | none => { x with bad := true }
+
+/-- the SDK holds this callback -/
+def liveCb (x : Sim) (c : Nat) (h : CH) : Bool :=
+  match h with
+  | .ph r => x.ms.sdkReg r == x.ms.sdkUnreg r + 1
+  | .direct => !x.dDead.contains c
+
+def insByKey {α : Type} (x : Nat × α) : List (Nat × α) → List (Nat × α)
+  | [] => [x]
+  | y :: r => if x.1 ≤ y.1 then x :: y :: r else y :: insByKey x r
+
+def liveCbs (x : Sim) : List (Nat × CH × List Nat) :=
+  (x.cbs.foldr insByKey []).filter fun (c, h, _) => liveCb x c h
+
+def stepMs (x : Sim) (tid : Nat) (a : Act) : Sim :=
+  match step false x.ms tid a with
+  | some s' => { x with ms := s' }
+  | none => { x with bad := true }
+
+/-- the body of the user function of callback c: one `Observe(inst, c+1)` per instrument -/
+def cbBody (x : Sim) (tid reader c : Nat) (h : CH) (is : List Nat) : Sim :=
+  is.foldl (fun x i =>
+    match h, lookup x.insts i with
+    | .ph _, some (.ph j, _) => stepMs x tid (.cbObserve j (c + 1))
+    | _, some _ => { x with dObs := (reader, i, c, c + 1) :: x.dObs }
+    | _, none => { x with bad := true }) x
+
+def cbEnter (x : Sim) (tid reader : Nat) (h : CH) : Sim :=
+  match h with
+  | .ph r => stepMs x tid (.cbBegin r reader)
+  | .direct => x
+def cbLeave (x : Sim) (tid : Nat) (h : CH) : Sim :=
+  match h with
+  | .ph _ => stepMs x tid .cbEnd
+  | .direct => x
+
+/-- one complete invocation of a callback on behalf of `reader` -/
+def cbWhole (x : Sim) (tid reader : Nat) (e : Nat × CH × List Nat) : Sim :=
+  let x := { x with extraInv := (e.1, 1) :: x.extraInv }
+  cbLeave (cbBody (cbEnter x tid reader e.2.1) tid reader e.1 e.2.1 e.2.2) tid e.2.1
+
+/-- what `reader`'s Observers received among the observations made since the log had `n0` entries -/
+def readerPoints (x : Sim) (n0 d0 reader : Nat) : List (Nat × Nat × Nat) :=
+  let newLog := x.ms.obsLog.take (x.ms.obsLog.length - n0)
+  let ph := newLog.filterMap fun e =>
+    if e.target == reader && e.unwrapped then
+      match x.insts.find? (fun p => p.2.1 == IH.ph e.inst), x.cbs.find? (fun p => p.2.1 == CH.ph e.r) with
+      | some (i, _), some (c, _) => some (i, c, e.v)
+      | _, _ => none
+    else none
+  let dr := (x.dObs.take (x.dObs.length - d0)).filterMap fun (rd, i, c, v) => if rd == reader then some (i, c, v) else none
+  ph ++ dr
+
+/-- `OC c`: reader 0 (thread tA) enters callback c and parks before it observes; reader 1 (thread tB) runs a complete
+cycle; reader 0 resumes, then invokes its remaining callbacks. `CC`: one cycle of each reader (all cycles are alike). -/
+def collectOp (x : Sim) (parkAt : Option Nat) : Sim :=
+  let skipped := x.active && x.obsOc.head? == some "skip"
+  let x := { x with obsOc := x.obsOc.drop 1 }
+  -- during an installation the harness collects only while no operation has ever been pending (an unblocked operation
+  -- may still be on its way); whether it did is read off the observation
+  if skipped then { x with ocs := "skip" :: x.ocs }.tag "ocSkipped" else
+  let x := if x.active then x.tag "ocDuringInstall" else x
+  let n0 := x.ms.obsLog.length
+  let d0 := x.dObs.length
+  let tA := x.nextTid
+  let tB := x.nextTid + 1
+  let x := { x with nextTid := x.nextTid + 2 }
+  let live := liveCbs x
+  let parked := live.find? (fun e => some e.1 == parkAt)
+  let rest := live.filter (fun e => some e.1 != parkAt)
+  let x := match parked with
+    | some e => (cbEnter { x with extraInv := (e.1, 1) :: x.extraInv } tA 0 e.2.1).tag "ocParked"
+    | none => x.tag (if parkAt.isSome then "ocNotLive" else "ccCycle")
+  let x := live.foldl (fun x e => cbWhole x tB 1 e) x
+  let x := match parked with
+    | some e => cbLeave (cbBody x tA 0 e.1 e.2.1 e.2.2) tA e.2.1
+    | none => x
+  let x := rest.foldl (fun x e => cbWhole x tA 0 e) x
+  let x := if live.any (fun e => e.2.1 == CH.direct) then x.tag "ocDirectCb" else x
+  let x := if live.length ≥ 2 then x.tag "ocManyCbs" else x
+  { x with ocs := s!"A={Spec.renderPoints (readerPoints x n0 d0 0)}/B={Spec.renderPoints (readerPoints x n0 d0 1)}~0" :: x.ocs }
+
 def applyOp (x : Sim) : Op → Sim
   | .M k => launch x (.M k)
   | .K i k kind => launch x (.K i k kind)
   | .R c k is => launch x (.R c k is)
+  | .RB c k is => launch x (.RB c k is)
   | .U c => launch x (.U1 c)
   | .T t => launch x (.T t)
   | .A i v =>
@@ -277,10 +380,28 @@ def applyOp (x : Sim) : Op → Sim
         match step false s1 tid .addFwd with
         | none => { x with bad := true }
         | some s2 => { x with ts := s2, nextTid := tid + 1 }.tag (if x.ts.iDel j then "spanForwarded" else "spanNonRecording")
-  | .P id => { x with props := (id, if x.prop then 1 else 0) :: x.props }
+  | .P id =>
+    match TMP.prun x.tmp (TMP.injLabels x.nextTid id) with
+    | some s' =>
+      let v := match s'.plog.head? with | some (_, some d) => d | _ => 0
+      { x with tmp := s', nextTid := x.nextTid + 1, props := (id, v) :: x.props }.tag (if v = 0 then "injectNoop" else "injectForwarded")
+    | none => { x with bad := true }
+  | .PG id =>
+    match x.tmp.stored with
+    | some _ =>
+      match TMP.pstep x.tmp x.nextTid (.gInject id) with
+      | some s' =>
+        let v := match s'.glog.head? with | some (_, d) => d | none => 0
+        { x with tmp := s', nextTid := x.nextTid + 1, props := (id, v) :: x.props }.tag "injectGlobal"
+      | none => { x with bad := true }
+    | none =>    -- the global value still is the placeholder
+      match TMP.prun x.tmp (TMP.injLabels x.nextTid id) with
+      | some s' => { x with tmp := s', nextTid := x.nextTid + 1, props := (id, 0) :: x.props }.tag "injectNoop"
+      | none => { x with bad := true }
   | .IM => launch x .IM
   | .IT => launch x .IT
-  | .IP => { x with prop := true }
+  | .IP => setProp x 1
+  | .IP2 => setProp x 2
   | .GM lvl =>
     if x.active then { x with bad := true } else
     afterAdv (adv 0 true FUEL { x with active := true, onTracer := false, gm := lvl ≥ 1, gi := lvl ≥ 2, gr := lvl ≥ 2 })
@@ -300,7 +421,18 @@ def applyOp (x : Sim) : Op → Sim
     else match step false x.ts x.nextTid .selfSet with
       | some s' => { x with ts := s', nextTid := x.nextTid + 1 }.tag "selfSetT"
       | none => { x with bad := true }
-  | .XP => x.tag "selfSetP"
+  | .XP =>
+    match x.tmp.stored with
+    | some d => setProp x d            -- current is no placeholder: an ordinary SetTextMapPropagator(current)
+    | none =>
+      match TMP.pstep x.tmp x.nextTid .selfSet with
+      | some s' => { x with tmp := s', nextTid := x.nextTid + 1 }.tag "selfSetP"
+      | none => { x with bad := true }
+  | .OC c => collectOp x (some c)
+  | .CC n =>
+    let y := collectOp x none
+    -- the remaining n-1 cycles of each reader repeat the first one (no label of a cycle changes what the next one reads)
+    { y with extraInv := (liveCbs y).map (fun e => (e.1, 2 * (n - 1))) ++ y.extraInv }
   | .par _ => { x with bad := true }
 
 def runOps (x : Sim) (ops : List Op) : Sim := applyOp (ops.foldl applyOp x) .F
